@@ -34,6 +34,7 @@ var c37Guards = []eng.LSGuard{
 }
 
 func runC37(c *core.Ctx) {
+	checkVerifyBlockSetsRequestHeight(c)
 	var fns []*ssa.Function
 	for _, p := range []string{pkTxCom, pkTxProc} {
 		pk := c.P.Pkgs[ir.PkgPath(p)]
